@@ -2003,7 +2003,11 @@ def c09(tier, sc):
     x_open = [S(""), S("<"), S("<a"), S("<a "), S("<a b"), S("<a b="), S("<a b='"), S('<a b="'), S("<a b=`"), S("</"), S("<!"),
               S("<!--"), S("<![CDATA["), S("<%"), S("<?"), S("<a href="), S("<a/"), S("<a href='")]
     xs = xss_props(sc, d, rep, "pump", "pump", sig, 1, prefixes=x_open)
-    xunits = [S(u) for u in ("&#", "&#x", "&#1;", "&#x41;", "]]", "--", "-!", "%>", "<a ", "a=b ", "a='b' ", "/>", "</a>", "<!-- -->", "on", "&#1", "java")]
+    xunits = [S(u) for u in ("&#", "&#x", "&#1;", "&#x41;", "]]", "--", "-!", "%>", "<a ", "a=b ", "a='b' ", "/>", "</a>", "<!-- -->", "on", "&#1", "java",
+                             # what the classifier looks at: listed names, schemes, references, comment prefixes
+                             "onclick=", "onclick=a ", "href=", "href=javascript:", "href=&#106;", "href=&#106 ", "style=", "xmlns:x=", "<script", "<script>",
+                             "</script>", "<svg ", "<!ENTITY ", "<!--[if ", "<!--`", "javascript:", "&#x6a;", "&#106", "href=j&#x61;", "a=`b` ", "formaction=",
+                             "<?xml ", "<?import ", "<x/", "<x y=z/", "\x00", "a\x00=", "=\x00")]
     for c in xs:
         s0 = c["in"]
         if s0:
